@@ -1,5 +1,6 @@
 import GmQuic.Lemmas.Cost
 import GmQuic.Lemmas.Sid
+import GmQuic.Lemmas.CidRemote
 import GmQuic.Props.C04.Ack
 /-!
 C04 — packet-number arrival, connection ids, stream frames, flow control, CRYPTO: cost bounds and limit errors,
@@ -126,7 +127,7 @@ theorem insertCost_le (s : Cid.Remote) (seq : Nat) : s.insertCost seq ≤ seq - 
   simp only
   split <;> simp <;> omega
 
-/-- **handler_cost_bounded (NEW_CONNECTION_ID)**, fixed code; `rpt ≤ seq` is enforced by the frame parser. -/
+/-- **handler_cost_bounded (NEW_CONNECTION_ID)**, /repo HEAD; `rpt ≤ seq` is enforced by the frame parser. -/
 theorem new_cid_cost_bounded (s : Cid.Remote) (seq rpt : Nat) (cid : Cid.Cid) (hwf : rpt ≤ seq) :
     (handleNewCid true s seq rpt cid).2.total ≤ 5 * sizeRcid s + 3 * maxSeqGap + 4 := by
   unfold handleNewCid
@@ -144,37 +145,96 @@ theorem new_cid_cost_bounded (s : Cid.Remote) (seq rpt : Nat) (cid : Cid.Cid) (h
     omega
   split <;> simp only [Cost.total, Cost.one] <;> omega
 
-/-- **over_limit_rejected (cid limit, frame fields)**: rejected before anything is inserted -/
-theorem cid_limit_rejected (fixed : Bool) (s : Cid.Remote) (seq rpt : Nat) (cid : Cid.Cid) (h : seq - rpt > s.limit) :
-    handleNewCid fixed s seq rpt cid = (.err .connectionIdLimit, Cost.one) := by
-  unfold handleNewCid; simp [h]
+theorem recvNewCid_ne_discarded (t : Cid.Remote.Tree) (s : Cid.Remote) (seq rpt : Nat) (cid : Cid.Cid)
+    (h0 : ¬ seq < s.coff) : Cid.Remote.recvNewCid t s seq rpt cid ≠ .discarded := by
+  intro h
+  unfold Cid.Remote.recvNewCid at h
+  split at h; · cases h
+  simp only [h0, if_false] at h
+  split at h
+  · cases h
+  · split at h <;> cases h
+
+theorem farAhead_eq (s : Cid.Remote) (seq : Nat) :
+    s.farAhead seq = decide (seq - (s.coff + s.cdq.length) > max maxSeqGap s.limit) := by
+  have : maxSeqGap = Cid.Remote.maxSequenceGap := by decide +kernel
+  simp [Cid.Remote.farAhead, this]
+
+/-- the only connection error NEW_CONNECTION_ID raises is CONNECTION_ID_LIMIT_ERROR (both trees) -/
+theorem new_cid_err_kind (fixed : Bool) (s : Cid.Remote) (seq rpt : Nat) (cid : Cid.Cid) (k : EK)
+    (h : (handleNewCid fixed s seq rpt cid).1 = .err k) : k = .connectionIdLimit := by
+  unfold handleNewCid at h
+  split at h; · cases h; rfl
+  split at h; · cases h
+  split at h; · cases h; rfl
+  simp only at h
+  split at h <;> cases h
+  rfl
+
+/-- **over_limit_rejected (active_connection_id_limit)**, /repo HEAD (the `seq - retire_prior_to` pre-test is gone:
+58494fa): whenever the frame is ACCEPTED, the number of active peer ids — received, not below the retire-prior-to
+mark, not retired by the path that held them — counted after the frame has been processed is within the limit; so
+a frame that would leave more is answered with CONNECTION_ID_LIMIT_ERROR (`new_cid_err_kind`,
+`cid_count_exceeded_rejected`).  `RInv` = C14's structural invariant of the tables, proved for every history
+(`Cid.RRun.runInv_run`); over whole histories this is C14's `remote_limit_enforced .exact`. -/
+theorem cid_limit_rejected (s : Cid.Remote) (hi : Cid.Remote.RInv s) (seq rpt : Nat) (cid : Cid.Cid) (s' : Cid.Remote)
+    (hseq : s.coff ≤ seq) (h : (handleNewCid true s seq rpt cid).1 = .ok s') :
+    s'.activeCount ≤ s'.limit ∧ s'.limit = s.limit := by
+  unfold handleNewCid at h
+  have h0 : ¬ seq < s.coff := by omega
+  simp only [h0, if_false, not_true_eq_false, false_and, true_and, if_true] at h
+  split at h; · cases h
+  have hs := Cid.Remote.recvNewCid_spec (fixed := .exact) (seq := seq) (rpt := rpt) (cid := cid) hi
+  cases hr : Cid.Remote.recvNewCid .exact s seq rpt cid with
+  | accepted s2 =>
+    simp only [hr] at h
+    cases h
+    have := hs.1 s' hr
+    exact ⟨this.2.2 rfl, this.2.1⟩
+  | errLimit _ => simp only [hr] at h; cases h
+  | panic _ => simp only [hr] at h; cases h
+  | discarded => exact absurd hr (recvNewCid_ne_discarded _ s seq rpt cid h0)
+
+example : Cid.Remote.RInv (Cid.Remote.init 2) ∧ (Cid.Remote.init 2).coff ≤ 0 ∧
+    ∃ s', (handleNewCid true (Cid.Remote.init 2) 0 0 (.ext 0)).1 = .ok s' :=
+  ⟨Cid.Remote.rinv_init 2, Nat.le_refl _, _, rfl⟩
+
+/-- … and the converse direction at the level of one frame: if, after the insert and the retirement, more ids are
+active than the limit allows, the answer is CONNECTION_ID_LIMIT_ERROR -/
+theorem cid_count_exceeded_rejected (s s2 : Cid.Remote) (seq rpt : Nat) (cid : Cid.Cid)
+    (hseq : s.coff ≤ seq) (hgap : ¬ seq - (s.coff + s.cdq.length) > max maxSeqGap s.limit)
+    (h2 : (s.insertCid seq cid).1.retirePriorTo rpt = .ok s2) (hc : s2.activeCount > s2.limit) :
+    (handleNewCid true s seq rpt cid).1.isErr = some .connectionIdLimit := by
+  unfold handleNewCid
+  have h0 : ¬ seq < s.coff := by omega
+  simp only [h0, if_false, not_true_eq_false, false_and, true_and, hgap]
+  have hfa : s.farAhead seq = false := by rw [farAhead_eq]; simpa using hgap
+  unfold Cid.Remote.recvNewCid
+  simp [Cid.Remote.Tree.pre, Cid.Remote.Tree.count, hfa, h0, h2, hc, Out.isErr]
+
+/- /repo HEAD no longer rejects on the frame's two fields alone: limit 2, ids {0, 2} held (1 retired by its path):
+`seq 3, retire_prior_to 0` has `seq - rpt = 3 > 2` and is accepted — see C14 `legal_issue_accepted`. -/
 
 /-- a sequence number far beyond everything received is refused with CONNECTION_ID_LIMIT_ERROR before the insert
 (one step, nothing allocated) -/
 theorem cid_far_ahead_rejected (s : Cid.Remote) (seq rpt : Nat) (cid : Cid.Cid)
-    (h1 : ¬ seq - rpt > s.limit) (h2 : seq - (s.coff + s.cdq.length) > max maxSeqGap s.limit) :
+    (h2 : seq - (s.coff + s.cdq.length) > max maxSeqGap s.limit) :
     handleNewCid true s seq rpt cid = (.err .connectionIdLimit, Cost.one) := by
   unfold handleNewCid
   have : ¬ seq < s.coff := by omega
-  simp [h1, this, h2]
+  simp [this, h2]
 
-example : (3 : Nat) - 3 ≤ (Cid.Remote.init 2).limit ∧ 10000 - ((Cid.Remote.init 2).coff + (Cid.Remote.init 2).cdq.length) > max maxSeqGap (Cid.Remote.init 2).limit := by decide +kernel
+example : 10000 - ((Cid.Remote.init 2).coff + (Cid.Remote.init 2).cdq.length) > max maxSeqGap (Cid.Remote.init 2).limit := by decide +kernel
 
-/-- the unchanged code allocates one table cell per skipped sequence number -/
+/-- the pinned tree allocates one table cell per skipped sequence number -/
 theorem new_cid_old_cells (s : Cid.Remote) (seq rpt : Nat) (cid : Cid.Cid)
     (h1 : ¬ seq - rpt > s.limit) (h2 : s.coff ≤ seq) :
     s.insertCost seq ≤ (handleNewCid false s seq rpt cid).2.cells := by
   unfold handleNewCid
   have : ¬ seq < s.coff := by omega
-  simp only [h1, this, if_false, Bool.false_eq_true, false_and]
-  cases hr : Cid.Remote.recvNewCid true s seq rpt cid with
-  | discarded =>
-    exfalso
-    unfold Cid.Remote.recvNewCid at hr
-    simp only [h1, this, if_false] at hr
-    split at hr
-    · cases hr
-    · split at hr <;> cases hr
+  simp only [h1, this, if_false, Bool.false_eq_true, false_and, and_false]
+  cases hr : Cid.Remote.recvNewCid .pinned s seq rpt cid with
+  | discarded => exact absurd hr (recvNewCid_ne_discarded _ s seq rpt cid this)
   | errLimit _ => simp only; omega
   | accepted _ => simp only; omega
   | panic _ => simp only; omega
